@@ -83,6 +83,10 @@ def body_lines(code: str) -> list[str]:
     return code.rstrip("\n").split("\n")
 
 
+import functools
+
+
+@functools.lru_cache(maxsize=4096)
 def starts_with_header(lang: str, code: str) -> bool:
     if lang == "py":
         try:
@@ -92,6 +96,7 @@ def starts_with_header(lang: str, code: str) -> bool:
     return code.lstrip().startswith("/*")
 
 
+@functools.lru_cache(maxsize=4096)
 def has_toplevel_def(code: str) -> bool:
     return any(isinstance(s, (ast.FunctionDef, ast.AsyncFunctionDef)) for s in ast.parse(code).body)
 
@@ -415,7 +420,7 @@ def build_fragments(tier, seed, scale, extracted):
     for ex in extracted["examples"]:
         frags[ex["id"]] = {"fid": ex["id"], "kind": "doc", "ex": ex, "lang": ex["lang"], "files": frag_files(ex),
                            "config": ex.get("config") or {}}
-    n_gen = (40 if tier == "quick" else 1400) * scale
+    n_gen = (40 if tier == "quick" else 500) * scale
     for i in range(n_gen):
         r = rng_for(seed, PROP, "gen", i)
         code = E.gen_fragment(r)
@@ -474,7 +479,7 @@ def plan_cases(frags, fids, tier, seed, only, chk, filler_texts):
     quick: one PRNG chain per (linter, language) deals every context class to that linter's examples in turn - first to
     the examples that are reported in isolation (there is something to move), every other class also to an unreported
     one - so that every class is exercised for every linter in every run while each example gets only a share."""
-    cases, never = [], {}
+    cases, never, done = [], {}, set()
 
     def add(fr, cls):
         c = make_case(fr, cls, filler_texts)
@@ -482,6 +487,7 @@ def plan_cases(frags, fids, tier, seed, only, chk, filler_texts):
             chk.dist("not_applicable:" + ("excluded_by_documented_name_rules" if c.startswith("excluded by the documented") else cls.split(":")[0]))
             return False
         cases.append(c)
+        done.add((fr["ex"]["linter"], fr["lang"] == "py", cls))
         return True
 
     groups: dict = {}
@@ -509,7 +515,7 @@ def plan_cases(frags, fids, tier, seed, only, chk, filler_texts):
         cold = [f for f in members if f not in hot]
         r.shuffle(hot)
         r.shuffle(cold)
-        rounds = 1 if tier == "quick" or linter != "modelled" else max(1, (10 * len(members)) // max(1, len(classes)))
+        rounds = 1 if tier == "quick" or linter != "modelled" else max(1, (8 * len(members)) // max(1, len(classes)))
         ph = pc = 0
         for rnd in range(rounds):
             for n, cls in enumerate(classes):
@@ -526,7 +532,7 @@ def plan_cases(frags, fids, tier, seed, only, chk, filler_texts):
                             else:
                                 pc = (start + k + 1) % len(pool)
                             break
-                if not placed and not any(c["cls"] == cls and frags[c["fid"]]["ex"]["linter"] == linter for c in cases):
+                if not placed and (linter, lg == "py", cls) not in done:
                     never.setdefault(f"{linter}/{lg}", []).append(cls)
     if never:      # e.g. class renamings for a linter whose examples define no class
         chk.extra_cov["context_classes_without_an_applicable_example"] = {g: {"count": len(v), "first": sorted(v)[:8]} for g, v in never.items()}
